@@ -93,7 +93,7 @@ impl Utf8Decoder {
         }
     }
 
-    fn consume(&mut self) -> char {
+    fn consume(&mut self) -> Option<char> {
         let result = utf8_decode(&self.buffer[..self.offset]);
         self.reset();
         result
@@ -126,9 +126,13 @@ impl Decoder for Utf8Decoder {
                     return Err(Error::new(ErrorKind::InvalidInput, "utf8 decoder failed"));
                 }
                 Some(state) if UTF8DFA.info(state).is_accepting => {
+                    use std::io::{Error, ErrorKind};
                     self.push(*byte);
                     buf.consume(consume);
-                    return Ok(Some(self.consume()));
+                    return match self.consume() {
+                        Some(c) => Ok(Some(c)),
+                        None => Err(Error::new(ErrorKind::InvalidInput, "utf8 decoder failed")),
+                    };
                 }
                 Some(state) => {
                     self.push(*byte);
@@ -532,7 +536,7 @@ impl Matcher for KittyKeyboardMatcher {
 
     fn decode(&self, data: &[u8]) -> Option<Self::Item> {
         let data = &data[2..data.len() - 1]; // skip CSI and `u`
-        if data[0] == b'?' {
+        if data.first() == Some(&b'?') {
             let level = number_decode(&data[1..data.len()])?;
             return Some(TerminalEvent::KeyboardLevel(level));
         }
@@ -809,8 +813,9 @@ impl Matcher for MouseEventMatcher {
         // "\x1b[<{event};{row};{col}(m|M)"
         let mut nums = numbers_decode(&data[3..data.len() - 1], b';');
         let event = nums.next()?;
-        let col = nums.next()? - 1;
-        let row = nums.next()? - 1;
+        // coordinates are one-based, zero is not a valid report
+        let col = nums.next()?.checked_sub(1)?;
+        let row = nums.next()?.checked_sub(1)?;
 
         let mut mode = KeyMod::from_bits(((event >> 2) & 7) as u32);
         if data[data.len() - 1] == b'M' {
@@ -921,7 +926,7 @@ impl Matcher for UTF8Matcher {
     }
 
     fn decode(&self, data: &[u8]) -> Option<Self::Item> {
-        Some(utf8_decode(data))
+        utf8_decode(data)
     }
 }
 
@@ -948,9 +953,10 @@ impl Matcher for CursorPositionMatcher {
     fn decode(&self, data: &[u8]) -> Option<Self::Item> {
         // "\x1b[{row};{col}R"
         let mut nums = numbers_decode(&data[2..data.len() - 1], b';');
+        // coordinates are one-based, zero is not a valid report
         Some(TerminalEvent::CursorPosition(Position {
-            row: nums.next()? - 1,
-            col: nums.next()? - 1,
+            row: nums.next()?.checked_sub(1)?,
+            col: nums.next()?.checked_sub(1)?,
         }))
     }
 }
@@ -1315,12 +1321,13 @@ fn numbers_decode(data: &[u8], sep: u8) -> impl Iterator<Item = usize> + '_ {
 // Decode positive integer number
 fn number_decode(data: &[u8]) -> Option<usize> {
     let mut result = 0usize;
-    let mut mult = 1usize;
-    for b in data.iter().rev() {
+    for b in data.iter() {
         match b {
             b'0'..=b'9' => {
-                result += (b - b'0') as usize * mult;
-                mult *= 10;
+                // numbers that do not fit `usize` are clamped to `usize::MAX`
+                result = result
+                    .saturating_mul(10)
+                    .saturating_add((b - b'0') as usize);
             }
             _ => return None,
         }
@@ -1330,9 +1337,10 @@ fn number_decode(data: &[u8]) -> Option<usize> {
 
 // Convert slice to a character
 //
-// NOTE: this function must only be used on a validated buffer
-// containing single UTF8 character.
-fn utf8_decode(slice: &[u8]) -> char {
+// NOTE: this function must only be used on a buffer that has the shape
+// of a single UTF8 character (as checked by [utf8_nfa]). Returns `None`
+// if assembled code is not a unicode scalar value (surrogate or above U+10FFFF).
+fn utf8_decode(slice: &[u8]) -> Option<char> {
     let first = slice[0] as u32;
     let mut code: u32 = match slice.len() {
         1 => first & 127,
@@ -1345,7 +1353,7 @@ fn utf8_decode(slice: &[u8]) -> char {
         code <<= 6;
         code |= (*byte as u32) & 63;
     }
-    unsafe { std::char::from_u32_unchecked(code) }
+    char::from_u32(code)
 }
 
 #[derive(Debug, Clone, Copy)]
